@@ -41,7 +41,7 @@ type c05Case struct {
 	// GateStart: the delivery goroutine starts only when the harness lets it
 	// (released whenever the command loop waits for it, and at the end)
 	GateStart bool `json:"gate_start,omitempty"`
-	// StallAt > 0 (valid state only): 30 ms ReadTimeout; the client sends the
+	// StallAt > 0 (valid state only): 100 ms ReadTimeout; the client sends the
 	// first StallAt octets of the BDAT part, stays silent until the server has
 	// reacted to the timeout, then sends the rest. Only "no payload octet is
 	// executed" is demanded then.
@@ -194,7 +194,7 @@ func c05Run(c c05Case) Verdict {
 	cfg := harness.Config{LMTP: lmtp, MaxLineLength: c.MaxLine}
 	stall := c.StallAt > 0 && c.StallAt < len(p.body.buf) && c.State == "valid"
 	if stall {
-		cfg.ReadTimeoutMs = 30
+		cfg.ReadTimeoutMs = 100
 	} else if c.TLS {
 		cfg.TLS = "implicit"
 	}
@@ -273,7 +273,7 @@ func c05Run(c c05Case) Verdict {
 		// for the server to settle, then for the timeout's own reaction
 		w.WaitQuiet()
 		w.Recv()
-		r.Hub.WaitUntil(func() bool { return w.S.ClosedLocked() || w.S.WrittenLocked() > int64(len(w.Out)) }, 200*time.Millisecond)
+		r.Hub.WaitUntil(func() bool { return w.S.ClosedLocked() || w.S.WrittenLocked() > int64(len(w.Out)) }, 400*time.Millisecond)
 		w.WaitQuiet()
 		w.Send(p.body.buf[c.StallAt:])
 	} else {
@@ -600,7 +600,7 @@ func c05Gen(t *rapid.T) c05Case {
 	c.GateStart = rapid.IntRange(0, 2).Draw(t, "gate_start") == 0
 	c.ShuttingDown = rapid.IntRange(0, 5).Draw(t, "shutting_down") == 0
 	c.TLS = rapid.IntRange(0, 7).Draw(t, "tls") == 0
-	if c.State == "valid" && rapid.IntRange(0, 999).Draw(t, "stall")%25 == 7 {
+	if c.State == "valid" && rapid.IntRange(0, 999).Draw(t, "stall")%100 == 7 {
 		// payloads full of bait, stalled somewhere inside
 		for i := range c.Chunks {
 			c.Chunks[i].Payload = c05BaitPayload(len(c.Chunks[i].Payload) + 30)
